@@ -1,7 +1,8 @@
 """C13 / C08: DET-EFFECT, FRESH-CODEC, SEQ-ORDER, SCHED-FLOW, MT-TERMINATOR."""
 from lzlint.framework import rule
 from lzlint.core import (Prov, Callee, callee_of, strip_generics, last_seg, expr_walk, expr_str, op_local, op_place,
-                         const_val, guards_of, norm_cmp, switch_edges, self_field_of, reachable_without_edge)
+                         const_val, guards_of, norm_cmp, switch_edges, self_field_of, reachable_without_edge,
+                         control_conditions)
 from rules.concurrency import worker_fns, coordinator_fns, mt_types, fn_tag
 from rules.units import methods_of, self_field_stores, mentions_self_field
 
@@ -289,7 +290,7 @@ def sched_flow(ctx):
         ext = [(bi, t, c) for bi, t, c in f.calls() if c.is_('Vec::extend_from_slice')]
         exprs = []
         for bi, t, c in disp:
-            for s, pol, cond in guards_of(f, bi, prov):
+            for s, cond in control_conditions(f, bi, prov):
                 exprs.append(('cut-condition', s, cond))
         for bi, t, c in ext:
             exprs.append(('unit-bytes', bi, prov.operand(t['args'][1])))
